@@ -46,6 +46,7 @@ type EngineDef struct {
 	ExtraYield []string          `json:"extra_yield,omitempty"`
 	PerfStub   bool              `json:"perf_stub,omitempty"`
 	Props      []string          `json:"props"`
+	Ready      bool              `json:"ready,omitempty"` // reviewed and registered in MANIFEST.json (setup builds only these)
 	Porcupine  bool              `json:"porcupine,omitempty"`
 	Level      map[string]string `json:"level,omitempty"` // prop -> evidence level (default exploration)
 	Real       []string          `json:"real_components,omitempty"`
@@ -1000,12 +1001,19 @@ func cmdSetup() int {
 		}
 		fmt.Printf("setup: engine %s built in %.1fs\n", e.Name, time.Since(t0).Seconds())
 	}
+	var ready []*EngineDef
+	for _, e := range es {
+		if e.Ready {
+			ready = append(ready, e)
+		}
+	}
+	es = ready
 	if len(es) > 0 {
 		buildOne(es[0])
 	}
 	var wg sync.WaitGroup
 	sem := make(chan struct{}, 4)
-	for _, e := range es[1:] {
+	for _, e := range es[min(1, len(es)):] {
 		wg.Add(1)
 		go func(e *EngineDef) {
 			defer wg.Done()
